@@ -69,7 +69,7 @@ Definition dec_mouse_old (data : list N) : outcome pres :=
           let* r := next_number rest2 in
           match r with
           | None => Ok RNone
-          | Some (r, _) => let* _ := sub1_old r in Ok (RSome PFace)   (* rest of the body irrelevant here *)
+          | Some (r, _) => let* _ := sub1_old r in Ok (RSome PTermcap)   (* rest of the body irrelevant here *)
           end
       end
   end.
